@@ -1372,6 +1372,9 @@ class FnTr:
                 raise Unsupported("match on %s" % (t,))
             if len(arms) > 80:
                 raise Unsupported("match with %d arms (regenerated as a complete function graph instead)" % len(arms))
+            tbl = self.match_table(arms, a, t, env, ctx, expect)
+            if tbl is not None and not stmt_cont:
+                return k(tbl[0], tbl[1])
             lines = []
             s = a
             if not re.match(r"^[A-Za-z_][A-Za-z0-9_]*$", a):
@@ -1411,6 +1414,47 @@ class FnTr:
                 term = "let %s := %s\n%s" % (s, a, term)
             return term
         return self.ev(scrut, env, ctx, after)
+
+    def match_table(self, arms, a, t, env, ctx, expect):
+        """`match x { C1 => V1, C2 | C3 => V2, ..., _ => D }` with constant patterns and pure numeric results
+        -> (`Src.matchTable [(C1, V1), ...] D x`, type); None if the match is not of that shape"""
+        if len(arms) < 4:
+            return None
+        rows, dflt, rt = [], None, None
+        for i, (pat, guard, body) in enumerate(arms):
+            if guard is not None or body[0] in ("block", "return", "if", "match"):
+                return None
+            n0 = self.n
+            try:
+                got = []
+                probe = self.ev(body, env, {"ret": None, "brk": None, "cont": None}, lambda b, tt: got.append(tt) or ("\0" + b), expect=expect)
+            except (Unsupported, TypeError):
+                self.n = n0
+                return None
+            if not probe.startswith("\0") or got[0][0] not in ("int", "enum"):
+                self.n = n0
+                return None
+            val = probe[1:]
+            if rt is None or rt == I("lit"):
+                rt = got[0]
+            alts = pat[1] if pat[0] == "por" else [pat]
+            if pat[0] == "pwild":
+                if i != len(arms) - 1:
+                    return None
+                dflt = val
+                break
+            for p in alts:
+                if p[0] not in ("plit", "ppath") or (p[0] == "plit" and p[1][0] != "num"):
+                    return None
+                c, b = self.patcond(p, "S", t)
+                m = re.match(r"^\(S == (.*)\)$", c)
+                rows.append("(%s, %s)" % (m.group(1), val))
+        if dflt is None:
+            if t[0] != "enum":
+                return None
+            # exhaustive over an enum: the last arm's value serves as the default
+            dflt = rows[-1].rsplit(", ", 1)[1][:-1]
+        return "(Src.matchTable [%s] %s %s)" % (", ".join(rows), dflt, a), fix(rt, expect)
 
     def patcond(self, pat, s, t):
         """(Lean Bool condition or None for irrefutable, bound variable name or None)"""
@@ -1533,6 +1577,9 @@ def allM {α : Type} : List α → (α → Option Bool) → Option Bool
     | none => none
     | some false => some false
     | some true => allM xs f
+
+/-- `match x { C₁ => V₁, …, _ => D }` with constant patterns and constant results: first matching row -/
+def matchTable (tbl : List (Nat × Nat)) (dflt : Nat) (x : Nat) : Nat := (tbl.lookup x).getD dflt
 
 /-- unsigned subtraction: panics below zero (overflow checks on); the release build would wrap -/
 def sub (a b : Nat) : Option Nat := if b ≤ a then some (a - b) else none
